@@ -127,8 +127,9 @@ func RunPckExtCase(cs map[string]any, id int, seed int64) Result {
 				return gen.ElemInt(gen.TcbCompOID(idx), big[rng.Intn(len(big))])
 			case "negative":
 				return gen.ElemInt(gen.TcbCompOID(idx), []int64{-1, -128, -256}[rng.Intn(3)])
-			case "badType":
-				return gen.ElemOctet(gen.TcbCompOID(idx), []byte{5})
+			case "badType": // any universal or context-specific type other than INTEGER
+				alts := [][]byte{gen.Octet([]byte{5}), gen.Null(), gen.Bool(true), gen.Enum(5), gen.UTF8("5"), gen.TLV(0x80, []byte{5}), gen.Seq(gen.Int(5)), gen.TLV(0xa0, gen.Int(5))}
+				return gen.Seq(gen.OID(gen.TcbCompOID(idx)...), alts[rng.Intn(len(alts))])
 			case "trailing":
 				real := v.PCESvn
 				if idx <= 16 {
